@@ -33,7 +33,7 @@ def producing(rng, c, others):
     elif c.kind == 'wide':
         ch = rng.choice(['copy', 'sop', 'mask', 'pack', 'scov', 'fracdet', 'deg', 'mop', 'moc'])
     elif c.kind == 'rec':
-        ch = rng.choice(['copy', 'single', 'scov', 'fracdet', 'deg', 'upg', 'pack', 'mask'])
+        ch = rng.choice(['copy', 'single', 'single', 'single', 'scov', 'fracdet', 'deg', 'upg', 'pack', 'mask'])
     else:
         ch = rng.choice(['copy', 'sop', 'mask', 'astype', 'pack', 'scov', 'fracdet', 'deg', 'degsame', 'degw', 'upg',
                          'mop', 'moc', 'write'])
